@@ -6,6 +6,7 @@ import (
 	"fmt"
 	"go/types"
 	"os"
+	"sort"
 	"strings"
 
 	"golang.org/x/tools/go/ssa"
@@ -319,4 +320,31 @@ func sliceLitElems(v ssa.Value) []ssa.Value {
 		}
 	}
 	return out
+}
+
+// kindsAt: the reflect kinds of `subject` (a kindFact subject such as "V:P1") for which
+// instruction in is reachable, as established by the kind tests dominating it (nil: no kind test).
+func (c *Ctx) kindsAt(in ssa.Instruction, subject string) []int64 {
+	var best []int64
+	for _, f := range c.domFacts(in.Block()) {
+		alts := f.Alts
+		if alts == nil {
+			alts = []DomFact{f}
+		}
+		var all []int64
+		ok := true
+		for _, a := range alts {
+			sub, ks, isK := c.kindFact(a.Cond, a.Pos)
+			if !isK || sub != subject {
+				ok = false
+				break
+			}
+			all = append(all, ks...)
+		}
+		if ok && (best == nil || len(all) < len(best)) {
+			best = all
+		}
+	}
+	sort.Slice(best, func(i, j int) bool { return best[i] < best[j] })
+	return best
 }
